@@ -9,7 +9,7 @@ def run(tier):
     n = 60 if tier == "quick" else 900
     insts = []
     for i in range(n):
-        k = i % 4
+        k = i % 5
         if k == 0:
             inst = corpus.general(rng, i + 1, allow=("bounds", "npt", "restarts", "regress"))
             corpus.with_bounds(rng, inst)
@@ -21,8 +21,17 @@ def run(tier):
             inst = corpus.base(rng, i + 1, prob="lin", n=int(rng.integers(1, 4)))
             inst["m"] = inst["n"] + 1
             inst.update(reg=str(rng.choice(["l1", "l2"])), lam=float(rng.choice([0.01, 0.1, 1.0])), maxfun=20, timeout=300.0)
-            if rng.random() < 0.5:
+            if rng.random() < 0.6:
                 inst.update(bounds="both", x0place=["in"] * inst["n"])
+                if rng.random() < 0.6:
+                    # the regulariser lives in the user's coordinates, the step in scaled ones; small |x| makes the two values of h differ most
+                    inst.update(scaling=True, bscale=float(rng.choice([2.0, 5.0])), mag=float(rng.choice([0.1, 1.0])), reg="l1")
+        elif k == 4:
+            # L1-regularised, scaled to the unit box, solution near the origin of the USER's coordinates (h at the scaled and at the true point differ most)
+            inst = corpus.base(rng, i + 1, prob="lin", n=int(rng.integers(2, 5)))
+            inst["m"] = inst["n"] + int(rng.integers(1, 4))
+            inst.update(reg="l1", lam=float(rng.choice([0.1, 0.5, 1.0])), maxfun=25, timeout=300.0, bounds="both", x0place=["in"] * inst["n"], scaling=True,
+                        bscale=float(rng.choice([1.0, 2.0, 5.0])), mag=float(rng.choice([0.03, 0.1, 0.3])))
         else:
             # regularised with projections (the predicted-reduction guard on the projection branch)
             inst = corpus.proj_inst(rng, i + 1)
